@@ -42,6 +42,10 @@ CLAIMED['C20'] = dict(engine='E6', technique='Coq proof, for arbitrary candidate
     text='Partial. Proved: any Some(A) returned is the identity for almost-equal shapes or has passed _try_affine, i.e. the transformed first outline agrees with the second command for command within the tolerance (almost_equals characterised as letter/arity/argument-wise closeness); identical shapes give the identity; nothing is reported when no matrix verifies. The geometric reading of apply_affine and "an exact translation is always found" are judged on the implementation on every run.',
     note='Reuse.v is a hand model (arc-free paths) validated against the implementation incl. candidate matrices; atan2/sqrt from CPython in the differential run.',
     design='§7 C20')
+CLAIMED['C05'] = dict(engine='E5', technique='Coq: compositing algebra for group flattening and the inheritance loop over the regenerated handler table; hand model of the inheritance helpers checked against the implementation helpers; end-to-end spec-side renderer judge on every run',
+    text='Partial. Proved: source-over algebra (associativity; opaque / transparent / single-child groups flatten with the opacity multiplied in; a translucent group with overlapping children must be kept — counterexample), and for the model of _inherit_attrib that each handler touches only its attribute and copied properties resolve to the own value else the context (nearest ancestor). Not a theorem: that the whole pipeline realises this for every document — decided on every run by rendering source and converted documents with an independent spec-side renderer at sample points. Two recorded findings (root opacity, unclamped out-of-range shape opacity).',
+    note='Inherit.v hand model validated on 1500/30000 random attribute maps against the real helpers; dyadic opacities; renderer is trusted spec-side code.',
+    design='§7 C05')
 PENDING = {}
 
 def main():
